@@ -393,10 +393,10 @@ func (wf *Workflow) reconnectDeadEndConnections(procs map[string]WorkflowProcess
 	}
 
 	if foundNewDriverProc && len(procs) > 1 { // Allow for a workflow with a single process
-		// A process can't both be the driver and be included in the main procs
-		// map, so if we have an alerative driver, it should not be in the main
-		// procs map
-		delete(wf.procs, wf.driver.Name())
+		// A process can't both be the driver and be included in the set of
+		// procs to run, so if we have an alerative driver, it should not be in
+		// that set (which is wf.procs for Run(), but not for RunTo())
+		delete(procs, wf.driver.Name())
 	}
 }
 
